@@ -448,6 +448,14 @@ ICUTranscoder::ICUTranscoder(const  XMLCh* const        encodingName
 
     // Remember if its a fixed size encoding
     fFixed = (ucnv_getMaxCharSize(fConverter) == ucnv_getMinCharSize(fConverter));
+
+    //
+    //  A new converter substitutes illegal and unassigned input with U+FFFD
+    //  or U+001A. We have to report such input, so make the converter stop
+    //  there instead; transcodeFrom() turns that into an exception.
+    //
+    UErrorCode err = U_ZERO_ERROR;
+    ucnv_setToUCallBack(fConverter, UCNV_TO_U_CALLBACK_STOP, NULL, NULL, NULL, &err);
 }
 
 ICUTranscoder::~ICUTranscoder()
@@ -518,8 +526,21 @@ ICUTranscoder::transcodeFrom(const  XMLByte* const          srcData
 
         if (fFixed)
         {
+            // Report the source bytes that the converter stopped at
+            char        badBytes[4];
+            int8_t      badLen = sizeof(badBytes);
+            UErrorCode  err2 = U_ZERO_ERROR;
+            ucnv_getInvalidChars(fConverter, badBytes, &badLen, &err2);
+
+            unsigned int badVal = 0;
+            if (U_SUCCESS(err2))
+            {
+                for (int8_t index = 0; index < badLen; index++)
+                    badVal = (badVal << 8) | (unsigned char)badBytes[index];
+            }
+
             XMLCh tmpBuf[17];
-            XMLString::binToText((unsigned int)(*startTarget), tmpBuf, 16, 16, getMemoryManager());
+            XMLString::binToText(badVal, tmpBuf, 16, 16, getMemoryManager());
             ThrowXMLwithMemMgr2
             (
                 TranscodingException
